@@ -38,9 +38,15 @@ type Flags struct {
 	Hook bool `json:"hook"` // PreprocessGraphQLSchemaDefinition set (forces the clone path)
 	Feat bool `json:"feat"` // Features function set
 	Cost bool `json:"cost"` // DefaultFieldCost = {Resolver: 1}
+	// NoExec: Config.Execute is left unset (the library's default graphql.Execute runs; the cost is
+	// then not observable, but everything the cost rule does to the *response* still is)
+	NoExec bool `json:"noexec,omitempty"`
 }
 
 func (f Flags) String() string {
+	if f.NoExec {
+		return fmt.Sprintf("hook=%v,feat=%v,cost=%v,no Execute hook", f.Hook, f.Feat, f.Cost)
+	}
 	return fmt.Sprintf("hook=%v,feat=%v,cost=%v", f.Hook, f.Feat, f.Cost)
 }
 
@@ -49,6 +55,8 @@ func allFlags() []Flags {
 	for i := 0; i < 8; i++ {
 		out = append(out, Flags{Hook: i&1 != 0, Feat: i&2 != 0, Cost: i&4 != 0})
 	}
+	// one more family without an Execute hook (kept after the first eight: code indexes those)
+	out = append(out, Flags{Feat: true, Cost: true, NoExec: true}, Flags{Hook: true, Feat: true, Cost: true, NoExec: true})
 	return out
 }
 
@@ -483,7 +491,9 @@ func newWorld(flags Flags, d *defs) (*world, error) {
 	if flags.Cost {
 		cfg.DefaultFieldCost = defaultCost(true)
 	}
-	cfg.Execute = w.executeHook
+	if !flags.NoExec {
+		cfg.Execute = w.executeHook
+	}
 	api, err := apifu.NewAPI(cfg)
 	if err != nil {
 		return nil, err
